@@ -1,5 +1,8 @@
 //go:build verif
 
+//go:debug randseednop=0
+//go:debug cryptocustomrand=0
+
 // Package frames is the C09 correspondence driver: it calls the real uQUIC Initial frame
 // builders, flight builders, validateInitialFlight and the (initial) crypto stream splitter /
 // ClientHello scrambler in-process and prints what they emit. crypto/rand.Reader is replaced by a
@@ -14,11 +17,14 @@ import (
 	"errors"
 	"fmt"
 	"io"
+	"os"
 	"regexp"
 	"strconv"
+	mrand "math/rand"
 	"strings"
 	"sync"
 	"testing"
+	"testing/cryptotest"
 
 	quic "github.com/refraction-networking/uquic"
 	"github.com/refraction-networking/uquic/internal/verifharness/vh"
@@ -619,18 +625,26 @@ func synthCH(r *vh.Rand, target int) []byte {
 	return ch
 }
 
+var theT *testing.T
+
 var (
 	realOnce sync.Once
 	realCHs  [][]byte
 )
 
 // realClientHellos: ClientHellos produced offline by uTLS for the built-in parrots and by the plain
-// QUIC client. Their random parts differ from process to process (key shares); everything the check
-// needs is in the op line.
+// QUIC client (deterministic: see TestDriver).
 func realClientHellos() [][]byte {
 	realOnce.Do(func() {
+		n := uint64(0)
 		one := func(f func() []byte) {
 			defer func() { _ = recover() }()
+			// a fresh, fixed stream of both randomness sources for every ClientHello
+			n++
+			if theT != nil {
+				cryptotest.SetGlobalRandom(theT, 0xC0900+n)
+			}
+			mrand.Seed(int64(0xC0900 + n))
 			if b := f(); len(b) > 0 {
 				realCHs = append(realCHs, b)
 			}
@@ -1255,4 +1269,22 @@ func (rn *runner) GenOp(r *vh.Rand, i int) string {
 	}
 }
 
-func TestDriver(t *testing.T) { vh.Main(t, "frames", newRunner) }
+// TestDriver: every source of randomness outside the scripted per-op draws is pinned, so that the same
+// VERIF_SEED yields a byte-identical .ops file: crypto/rand (and the crypto packages' implicit
+// randomness: key shares, ML-KEM, uTLS's PRNG seeds) through testing/cryptotest.SetGlobalRandom, the
+// global math/rand source (uQUIC's extension / transport-parameter shuffles and the builders'
+// Shuffle) through Seed (enabled by the go:debug randseednop=0 directive above); cryptocustomrand=0
+// switches off crypto/internal/randutil.MaybeReadByte, which deliberately reads a byte at random. The real
+// ClientHellos are built first, at a fixed point of both streams.
+func TestDriver(t *testing.T) {
+	theT = t
+	chs := realClientHellos()
+	cryptotest.SetGlobalRandom(t, 0xC09)
+	if os.Getenv("VH_DEBUG") != "" {
+		for i, c := range chs {
+			fmt.Fprintf(os.Stderr, "real %d len=%d %x\n", i, len(c), c[6:14])
+		}
+	}
+	mrand.Seed(0xC09)
+	vh.Main(t, "frames", newRunner)
+}
